@@ -4,11 +4,52 @@ from xml.sax.saxutils import escape
 import oracle
 
 
+HOST = None     # set by embedding(): pieces of a generated host model that every model() call is spliced into
+
+
+def host_from_model(m, seed=0):
+    """pieces of an accepted generated model (gen_model.py), all its identifiers renamed to fresh ones so that they cannot clash with a cell"""
+    import random
+    import re
+    import xml.etree.ElementTree as ET
+    import prop_C09
+    xml2, mapping, _ = prop_C09.rewrite_tokens(m.xml(), 'R3', random.Random(seed))
+    root = ET.fromstring(xml2.encode('utf-8'))
+    sysel = root.find('system')
+    systext = sysel.text or ''
+    k = systext.rfind('system ')
+    names = re.findall(r'[A-Za-z_][A-Za-z_0-9]*', systext[k + 7:])
+    inst = ((root.find('instantiation').text if root.find('instantiation') is not None else '') or '') + ' ' + systext[:k]
+    return {'gdecl': (root.find('declaration').text or ''), 'templates': ''.join(ET.tostring(t, encoding='unicode') for t in root.findall('template')),
+            'inst': inst.strip(), 'processes': names}
+
+
+class embedding:
+    """with embedding(host): every cells.model() call is spliced into the host model"""
+
+    def __init__(self, host):
+        self.host = host
+
+    def __enter__(self):
+        global HOST
+        HOST = self.host
+
+    def __exit__(self, *a):
+        global HOST
+        HOST = None
+
+
 def model(gdecl='', tparams='', tdecl='', inv=None, guard=None, sync=None, assign=None, select=None, prob=None, rate=None,
           system='system P;', inst='', extra_templates='', inv2=None, extra_edges=''):
     """One template P: L0 (init, invariant) --[labels]--> L1 ; with prob: L0 -> branchpoint -> L1 (weight on the second edge)."""
     def lab(kind, text):
         return '<label kind="%s">%s</label>' % (kind, escape(text)) if text is not None else ''
+    if HOST is not None:
+        gdecl = HOST['gdecl'] + '\n' + gdecl
+        extra_templates = HOST['templates'] + extra_templates
+        inst = (HOST['inst'] + ' ' + inst).strip()
+        k = system.rfind('system ')
+        system = system[:k] + system[k:].rstrip().rstrip(';') + ''.join(', ' + n for n in HOST['processes']) + ';'
     out = ['<nta><declaration>%s</declaration>' % escape(gdecl)]
     out.append(extra_templates)
     out.append('<template><name>P</name>')
